@@ -103,7 +103,7 @@ func H_C06_stringBuilder() {
 	want := []uint16{}
 	for k := 0; k < w; k++ {
 		kind := vNondetInt("kind")
-		vAssume(kind >= 0 && kind <= 3)
+		vAssume(kind >= 0 && kind <= vBound("K"))
 		kind = vConcretize(kind)
 		switch kind {
 		case 0:
@@ -130,6 +130,26 @@ func H_C06_stringBuilder() {
 		}
 	}
 	vAssert("StringBuilder:content+normal-form", vC06Content(sb.String(), want))
+}
+
+// WriteSubstring after an optional BMP rune (which leaves the builder in ASCII or in UTF-16 mode)
+func H_C06_stringBuilderSub() {
+	var sb StringBuilder
+	want := []uint16{}
+	if vNondetBool("before") {
+		r := vNondetUint16("r") // any BMP code unit (ASCII keeps the builder in ASCII mode)
+		want = append(want, r)
+		sb.WriteRune(rune(r))
+	}
+	x := vC06NewStr("y", 0, vC06NumReps-1)
+	start := vNondetInt("start")
+	end := vNondetInt("end")
+	vAssume(0 <= start && start <= end && end <= len(x.units))
+	start = vConcretize(start)
+	end = vConcretize(end)
+	sb.WriteSubstring(x.value(), start, end)
+	want = append(want, x.units[start:end]...)
+	vAssert("StringBuilder.WriteSubstring:content+normal-form", vC06Content(sb.String(), want))
 }
 
 // ---------------------------------------------------------------------
@@ -219,3 +239,24 @@ func H_C06_toLowerUpper() {
 // symbolic-mode replacement of internal/bytealg.MakeNoZero (runtime-linked, no Go body; used by
 // strings.Builder.Grow): contract = a byte slice of length and capacity n with unspecified content.
 func vC06StubMakeNoZero(n int) []byte { return make([]byte, n) }
+
+// symbolic-mode replacement of strings.Compare (runtime cmpstring, assembly) by its documented
+// contract: lexicographic comparison of the bytes, result -1, 0 or +1.
+func vC06StubStringsCompare(a, b string) int {
+	res := 0
+	if len(a) < len(b) {
+		res = -1
+	}
+	if len(a) > len(b) {
+		res = 1
+	}
+	for i := min(len(a), len(b)) - 1; i >= 0; i-- {
+		if a[i] < b[i] {
+			res = -1
+		}
+		if a[i] > b[i] {
+			res = 1
+		}
+	}
+	return res
+}
